@@ -17,9 +17,10 @@
    theorem about it (C05_adaptive_remainder_accepted_unrepaired). *)
 From Coq Require Import List Arith Bool ZArith.
 From VBase Require Import FieldOps.
-From VModel Require Import Fri.
-From VProofs Require Import FriAccept FriBinding FriCount FriExamples.
+From VModel Require Import Merkle Fri FriMerkle.
+From VProofs Require Import MerkleSingle MerkleBind FriAccept FriBinding FriCount FriMerkleInst FriExamples.
 Import ListNotations.
+Local Open Scope nat_scope.
 
 Section C05.
 Context {F : Type} (O : FOps F) (L : FLaws O).
@@ -79,16 +80,18 @@ Proof. exact (adaptive_remainder_rejected O gen_offset dbg D hash_elements MN mt
 (* fri_binding: two decoded proof layers parsed by the channel, both authenticating against the same layer commitment at
    the same indexes with the same number of rows: the opened rows are identical, or [find_row_collision] returns two
    different rows with the same hash_elements digest, or a collision of the Merkle authentication function is exhibited.
-   The Merkle part is a HYPOTHESIS about the abstract authentication function (batch-proof binding is not yet a theorem
-   of C10; its single-path version is C10_single_binding). *)
+   Abstract version: Merkle binding (two openings of the SAME depth d >= 1 — the depth is fixed by the verifier: both
+   openings are checked at depth log2 of the layer's domain size, FriBinding.parse_layer_leaves) is a Section
+   hypothesis; it is discharged for the Merkle model of C10 in C05_fri_binding_merkle below. *)
 Section Binding.
 Variable coll : Type.
 Variable find_merkle_collision : D -> list nat -> list D * MN * nat -> list D * MN * nat -> option coll.
 Variable is_merkle_collision : coll -> Prop.
-Hypothesis merkle_binding : forall root indexes l1 n1 d1 l2 n2 d2,
-  mt_verify_batch root indexes l1 n1 d1 = AuthOk -> mt_verify_batch root indexes l2 n2 d2 = AuthOk ->
+Hypothesis merkle_binding : forall root indexes l1 n1 l2 n2 d,
+  1 <= d ->
+  mt_verify_batch root indexes l1 n1 d = AuthOk -> mt_verify_batch root indexes l2 n2 d = AuthOk ->
   length l1 = length l2 ->
-  l1 = l2 \/ exists c, find_merkle_collision root indexes (l1, n1, d1) (l2, n2, d2) = Some c /\ is_merkle_collision c.
+  l1 = l2 \/ exists c, find_merkle_collision root indexes (l1, n1, d) (l2, n2, d) = Some c /\ is_merkle_collision c.
 
 Theorem C05_fri_binding : forall N ds pl1 pl2 q1 q2 l1 l2 n1 n2 d1 d2 commitment indexes,
   parse_layer D hash_elements MN N ds pl1 = Some (Some (q1, (l1, n1, d1))) ->
@@ -112,6 +115,34 @@ Print Assumptions C05_fri_accept_iff_unrepaired.
 Print Assumptions C05_adaptive_remainder_accepted_unrepaired.
 Print Assumptions C05_adaptive_remainder_rejected.
 Print Assumptions C05_fri_binding.
+
+(* fri_binding, UNCONDITIONAL w.r.t. Merkle: the authentication function is MerkleTree::verify_batch of the Merkle model
+   of C10 (Model/Merkle.v through Model/FriMerkle.v), for every digest type with a decidable equality, every default
+   digest and every merge function; the Merkle part is discharged by C10_batch_binding_two (Proofs/MerkleBind.v
+   batch_binding_two: two batch openings of the SAME depth d >= 1 on the same usize index list with the same root
+   have equal leaves or find_batch_collision2 returns a collision of merge).  That both openings are checked at the
+   same depth >= 1 is a fact about the verifier model: parse_layer fixes it to log2 of the layer's domain size
+   (FriBinding.parse_layer_leaves); positions are nat, hence usize values.
+   FINAL PREMISE LIST: the field laws (for the decidable equality of rows) and D_eqb decides equality. *)
+Theorem C05_fri_binding_merkle : forall (F : Type) (O : FOps F), FLaws O ->
+  forall (D : Type) (D_eqb : D -> D -> bool), (forall a b, D_eqb a b = true <-> a = b) ->
+  forall (d0 : D) (merge : D -> D -> D) (hash_elements : list F -> D),
+  forall N ds pl1 pl2 q1 q2 l1 l2 n1 n2 d1 d2 commitment indexes,
+  parse_layer D hash_elements (list (list D)) N ds pl1 = Some (Some (q1, (l1, n1, d1))) ->
+  parse_layer D hash_elements (list (list D)) N ds pl2 = Some (Some (q2, (l2, n2, d2))) ->
+  cm_verify_batch D D_eqb merge commitment indexes l1 n1 d1 = AuthOk ->
+  cm_verify_batch D D_eqb merge commitment indexes l2 n2 d2 = AuthOk ->
+  length l1 = length l2 ->
+  exists rows1 rows2, group_slice N q1 = Ok rows1 /\ group_slice N q2 = Ok rows2 /\
+    (rows1 = rows2 \/
+     (exists r1 r2, find_row_collision O rows1 rows2 = Some (r1, r2) /\ r1 <> r2 /\ hash_elements r1 = hash_elements r2) \/
+     (exists c, cm_find_collision D D_eqb d0 merge commitment indexes (l1, n1, d1) (l2, n2, d2) = Some c /\
+                is_collision D merge c)).
+Proof.
+  intros F O L D D_eqb Hspec d0 merge hash_elements.
+  exact (fri_binding_merkle D D_eqb Hspec d0 merge O L hash_elements).
+Qed.
+Print Assumptions C05_fri_binding_merkle.
 
 (* fri_query_counting_partial — the counting step of the soundness argument (pure counting, no probability theory):
    for a last-layer function E fixed before the queries and a remainder R, check (e) passes on a vector ps of q
